@@ -46,11 +46,12 @@ type tamperCache struct {
 	inner  gmtls.ClientSessionCache
 	mu     sync.Mutex
 	tamper string
+	graft  []uint16                  // c16graft.go: the ClientHello's suites of a foreign client's connection (nil: stock client)
 	got    *gmtls.ClientSessionState // what the last Get returned from the inner cache
 	puts   []*gmtls.ClientSessionState
 }
 
-func (t *tamperCache) Get(key string) (*gmtls.ClientSessionState, bool) {
+func (t *tamperCache) get0(key string) (*gmtls.ClientSessionState, bool) { // Get is in c16graft.go
 	cs, ok := t.inner.Get(key)
 	t.mu.Lock()
 	defer t.mu.Unlock()
@@ -202,7 +203,7 @@ func evalResume(args []string) string {
 		case f[0] == "n" && len(f) == 2:
 			srv, _ := strconv.Atoi(f[1])
 			servers[srv&1] = c16FreshConfig(servers[srv&1])
-		case f[0] == "c" && len(f) == 5:
+		case (f[0] == "c" || f[0] == "g") && len(f) == 5: // g: a foreign client's connection (c16graft.go)
 			nconn++
 			srv, _ := strconv.Atoi(f[1])
 			srv &= 1
@@ -233,6 +234,13 @@ func evalResume(args []string) string {
 			ccfg.SessionTicketsDisabled = clientTicketsOff
 			cache.mu.Lock()
 			cache.tamper = f[4]
+			cache.graft = nil
+			if f[0] == "g" {
+				if cache.graft = su; su == nil {
+					cache.mu.Unlock()
+					return "bad-op"
+				}
+			}
 			cache.got = nil
 			nputs := len(cache.puts)
 			cache.mu.Unlock()
@@ -554,5 +562,6 @@ func genC16(r *rng, tier string, emit func(string)) {
 		}
 		emit(fmt.Sprintf("resume %s %d %s", mode, 1+r.intn(3), strings.Join(steps, ";")))
 	}
+	c16gGen(r, tier, emit) // connections of a foreign client that offers its ticket whatever its ClientHello lists (resumeg)
 	c16cGen(r, tier, emit) // byte-level session-state codec (sstate / sstatem) against Model.SessionState
 }
